@@ -376,3 +376,14 @@ prefix("C13", "D21-prefix-tsums-extent", "tangermeme/tools/tomtom.py", "88eec51"
 case("C13", "scratch-B-one-row-short", "VIOLATION", [("tangermeme/tools/tomtom.py", "_B = numpy.empty((n, T_max+1, n_len), dtype='float64')", "_B = numpy.empty((n, T_max, n_len), dtype='float64')")], "R-BOUNDS", note="mutation sweep: allocation one row short, B[t_max] out of bounds")
 case("C13", "scratch-f-one-bin-short", "VIOLATION", [("tangermeme/tools/tomtom.py", "_f = numpy.empty((n, Q_max, n_score_bins+1), dtype='float64')", "_f = numpy.empty((n, Q_max, n_score_bins), dtype='float64')")], "R-BOUNDS")
 case("C13", "tsums-extent-equiv", "HOLDS", [("tangermeme/tools/tomtom.py", "\tmax_nt = max(T_lens)\n\tt_sums = numpy.empty(max_nt+nq-1, dtype='int16')", "\tlongest = max(T_lens)\n\tt_sums = numpy.empty(nq + longest, dtype='int16')")], note="larger scratch under another name")
+
+
+# ------------------------------------------------------------------ rules added after the fourth round of seeds (KNOB, R-EVAL on DeepLIFT, ARGS-GIVEN, REFGRAD, NONE-TEST)
+case("C17", "njobs-reorders-chroms", "VIOLATION", [(MT, "\tf = delayed(_extract_and_filter_chrom)\n", "\tif n_jobs != 1:\n\t\tchroms = sorted(chroms, reverse=True)\n\tf = delayed(_extract_and_filter_chrom)\n")], "KNOB", "match.extract_matching_loci")
+case("C17", "verbose-only-prints", "HOLDS", [(MT, "\tf = delayed(_extract_and_filter_chrom)\n", "\tif verbose:\n\t\tmsg = 'scanning'\n\t\tprint(msg)\n\tf = delayed(_extract_and_filter_chrom)\n")])
+case("C06", "eval-only-if-training", "VIOLATION", [(D, "\tmodel = model.to(device).eval()\n\tfor module in model.modules():", "\tmodel = model.to(device)\n\tif model.training:\n\t\tmodel = model.eval()\n\tfor module in model.modules():")], "R-EVAL", "deep_lift_shap.deep_lift_shap")
+case("C07", "eval-skipped-when-on-device", "VIOLATION", [(D, "\tmodel = model.to(device).eval()\n\tfor module in model.modules():", "\tif next(model.parameters()).device != torch.device(device):\n\t\tmodel = model.to(device).eval()\n\tfor module in model.modules():")], "R-EVAL", "deep_lift_shap.deep_lift_shap")
+case("C03", "args-cast-to-model-dtype", "VIOLATION", [(P, "args_ = [a[start:end].to(device) for a in args]", "args_ = [a[start:end].to(device, dtype) for a in args]")], "ARGS-GIVEN", "predict.predict")
+case("C03", "args-moved-with-cuda", "HOLDS", [(P, "args_ = [a[start:end].to(device) for a in args]", "args_ = [a[start:end].contiguous().to(device) for a in args]")])
+case("C04", "refs-from-grad-tensor", "VIOLATION", [(D, "\t\t\t\t_X = X[Xi].cpu()\n", "\t\t\t\t_X = X[Xi].cpu().requires_grad_()\n")], "REFGRAD", "deep_lift_shap.deep_lift_shap")
+case("C01", "start-truthiness", "VIOLATION", [(E, "\tif start is not None:\n\t\tif start < 0 or start > (X.shape[-1] - motif.shape[-1]):", "\tif start:\n\t\tif start < 0 or start > (X.shape[-1] - motif.shape[-1]):")], "NONE-TEST", "ersatz.substitute")
